@@ -27,10 +27,16 @@ type c18Case struct {
 
 // c18Execute builds, sends and observes one vector.
 func c18Execute(v *c18Vec, label string) *c18Case {
+	if !v.Tc.set {
+		c18Normalize(v)
+	}
 	c := &c18Case{v: v, key: c18CaseKey(v)}
-	s := c18SP(v.Cfg.Trust)
+	var s *saml.ServiceProvider
 	for try := 0; ; try++ {
 		rng := newRand(fmt.Sprintf("%s/%s/%d", c.key, label, try))
+		// the ServiceProvider with the trust configuration of the vector (metadata key
+		// descriptors, pinned certificate, fingerprint)
+		s = c18SPFor(v, rng)
 		now := time.Now()
 		c.b = c18Build(v, now, rng)
 		if time.Since(now) > 2*time.Second && try < 3 {
@@ -90,7 +96,11 @@ func c18Judge(rep *Report, c *c18Case) {
 		case v.Why.Framing:
 			what += "the byte string does not decode to a logout response document (" + v.In.Framing + ")"
 		case v.Why.Sig:
-			what += "no enveloped signature by a trusted IdP signing certificate verifies over it (sig=" + v.In.Sig + ", key=" + v.In.Key + ")"
+			what += "no enveloped signature by a certificate this configuration trusts verifies over it (sig=" + v.In.Sig + ", signer=" + v.In.Key +
+				", trust=" + v.Cfg.Trust + ": " + c18TrustKind(v.Tc) + ", trusted keys " + fmt.Sprint(v.Trusted) + ")"
+			if c18ListedOnlyInMetadata(v) {
+				what += "; the signer's certificate is only listed in sp.IDPMetadata"
+			}
 		case v.Why.Root:
 			what += "the root element is not a samlp:LogoutResponse"
 		case v.Why.Dest:
@@ -99,8 +109,10 @@ func c18Judge(rep *Report, c *c18Case) {
 			what += "IssueInstant is more than MaxIssueDelay ago (or missing / unparsable)"
 		case v.Why.Iss:
 			what += "Issuer is not the configured IdP"
+		case v.Why.NoIdP:
+			what += "no IdP is configured"
 		default:
-			what += "the status is not Success"
+			what += "the top-level StatusCode is not Success (status=" + v.In.Status + ", nested=" + v.In.Sub + ")"
 		}
 		rep.Violation(c.key+":accepted", what, replay())
 		return
@@ -135,12 +147,13 @@ func c18Judge(rep *Report, c *c18Case) {
 }
 
 var c18SampleWanted = map[string]bool{"MustAccept/none": true, "MustReject/SigAbsent": true, "MustReject/SigDigest": true,
-	"MustReject/Destination": true, "MustReject/IssueInstant": true, "DontCare/SigDup": true}
+	"MustReject/Destination": true, "MustReject/IssueInstant": true, "DontCare/SigDup": true,
+	"MustReject/SigUntrustedCert": true, "MustReject/FpMismatch": true, "MustReject/Status": true}
 
 func TestC18(t *testing.T) {
 	rep := NewReport("C18")
 	defer rep.Finish(t)
-	rep.Rule = "every terminal state of spec/LogoutValidate.tla (all single and pairwise deviations from a valid signed LogoutResponse over framing x root element x signature state x signing key x KeyInfo x Destination x Issuer x Status x IssueInstant class, 6 entry points, 2 trust configurations, 3 MaxIssueDelay settings) is built as a concrete document (random representatives per class), signed / mangled as the signature state says, POST- or redirect-encoded and passed to the real validator; IssueInstant is relative to the wall clock at call time; non-trivial = class MustAccept or MustReject"
+	rep.Rule = "every terminal state of spec/LogoutValidate.tla is built as a concrete document (random representatives per class), signed / mangled as the signature state says, POST- or redirect-encoded and passed to the real validator of a ServiceProvider set up with the vector's trust configuration; IssueInstant is relative to the wall clock at call time. Families: all single and pairwise deviations from a valid signed LogoutResponse over framing x root element x signature state x signing key x KeyInfo x Destination x Issuer x top-level StatusCode x IssueInstant class (6 entry points, metadata trust with one / several certificates, 3 MaxIssueDelay settings); 22 trust configurations (metadata key descriptors: one / several / use signing / omitted / encryption / none; pinned IDPCertificate x metadata listing nothing / the same / another key / no metadata; fingerprint sha256 / sha512 x the same; excluded combinations) x every single deviation, x signer {idp1, idp2, encryption-only, outsider} x KeyInfo x Signature position through all entry points; the Status structure top-level code (10 classes) x nested code (6) x StatusMessage / StatusDetail (4) through all entry points; non-trivial = class MustAccept or MustReject"
 	rep.Assume("the wall clock does not jump by more than the 5 s guard band between building a message and validating it (the class is recomputed from instants measured around the call)")
 	rep.Assume("test messages are signed with goxmldsig (exc-c14n, RSA-SHA256) using fixed harness keys; untrusted = key 'att', encryption-only = key 'idpenc'")
 	lines := loadLines(t, "vectors.ndjson")
@@ -155,6 +168,7 @@ func TestC18(t *testing.T) {
 			rep.Break("bad vector: %v", err)
 			return
 		}
+		c18Normalize(v)
 		vecs[v.Cfg.Mid] = append(vecs[v.Cfg.Mid], v)
 	}
 	oldMID := saml.MaxIssueDelay
@@ -168,6 +182,10 @@ func TestC18(t *testing.T) {
 	}
 	downgraded := 0
 	sampled := map[string]bool{}
+	// evidence: evaluations per branch of "trusted IdP certificate" and per class, and the
+	// two interactions the trust / Status dimensions exist for
+	byTrust := map[string]map[string]int{}
+	onlyInMetadata, nestedUnderFailure := 0, 0
 	// MaxIssueDelay is a package variable: one setting at a time
 	for _, midName := range []string{"90s", "10s", "1h"} {
 		vs := vecs[midName]
@@ -175,14 +193,23 @@ func TestC18(t *testing.T) {
 			continue
 		}
 		saml.MaxIssueDelay = c18MID(midName)
-		var good []*c18Vec
+		// quick tier: a second representative of the cases of the deviation families
+		// (metadata trust) and of every accepting case; the trust and Status families
+		// meet each class in many vectors, each with its own representatives
+		var good, again []*c18Vec
 		for _, v := range vs {
 			if v.Class == "MustAccept" {
 				good = append(good, v)
 			}
+			if thorough() || v.Class == "MustAccept" || (c18TrustKind(v.Tc) == "metadata" && v.In.Sub == "none" && v.In.Sx == "none") {
+				again = append(again, v)
+			}
 		}
 		for r := 0; r < reps+acceptReps; r++ {
 			label := fmt.Sprintf("rep%d", r)
+			if r == 1 {
+				vs = again
+			}
 			if r == reps {
 				vs = good
 			}
@@ -190,11 +217,23 @@ func TestC18(t *testing.T) {
 				c := c18Execute(vs[i], label)
 				rep.Eval(c.cls, c.key)
 				rep.Trace(1)
+				rep.mu.Lock()
 				if c.cls != vs[i].Class {
-					rep.mu.Lock()
 					downgraded++
-					rep.mu.Unlock()
 				}
+				kind := c18TrustKind(vs[i].Tc)
+				if byTrust[kind] == nil {
+					byTrust[kind] = map[string]int{}
+				}
+				byTrust[kind][c.cls]++
+				if c.cls == "MustReject" && vs[i].Pred.Verdict == "reject" && c18ListedOnlyInMetadata(vs[i]) &&
+					(vs[i].Pred.Step == "SigUntrustedCert" || vs[i].Pred.Step == "FpMismatch") {
+					onlyInMetadata++
+				}
+				if c.cls == "MustReject" && vs[i].Pred.Step == "Status" && vs[i].In.Sub != "none" {
+					nestedUnderFailure++
+				}
+				rep.mu.Unlock()
 				c18Judge(rep, c)
 				sk := c.cls + "/" + vs[i].Pred.Step
 				rep.mu.Lock()
@@ -211,6 +250,12 @@ func TestC18(t *testing.T) {
 		}
 	}
 	rep.Extra["c18_downgraded_by_clock"] = downgraded
+	rep.Extra["c18_by_trust_kind"] = byTrust
+	rep.Extra["c18_signer_only_in_metadata_rejected_for_it"] = onlyInMetadata
+	rep.Extra["c18_nested_code_under_failing_top_level_rejected_for_it"] = nestedUnderFailure
+	if onlyInMetadata == 0 || nestedUnderFailure == 0 || byTrust["pinned"]["MustAccept"] == 0 || byTrust["fingerprint"]["MustAccept"] == 0 {
+		rep.Break("vacuous: no case with a signer listed only in the metadata of a pinned / fingerprint configuration, no nested status code under a failing top-level code, or no accepting case under a pinned / fingerprint configuration")
+	}
 	if downgraded > 0 {
 		rep.Note("%d evaluations were downgraded to DontCare because the call happened too long after the message was built", downgraded)
 	}
@@ -233,6 +278,7 @@ func init() {
 		}
 		t.Setenv("VERIF_SEED", fmt.Sprint(r.Seed))
 		t.Setenv("VERIF_REPLAYS", t.TempDir())
+		c18Normalize(&r.Vector)
 		oldMID := saml.MaxIssueDelay
 		defer func() { saml.MaxIssueDelay = oldMID }()
 		saml.MaxIssueDelay = c18MID(r.Vector.Cfg.Mid)
